@@ -12,14 +12,14 @@ pub static DEF: CheckDef = CheckDef {
     id: "C19",
     run,
     replay,
-    rule: "ROM files are built in memory (header bytes 0x100-0x14F + a length) and loaded through the real loader (main::load_rom via the verif_load_rom hook). Enumerated completely: all 256 checksum bytes, all 256 cartridge-type bytes, all 256 ROM-size bytes and all 256 RAM-size bytes (everything else valid), each x 11 file-length classes (0, 0xFF, 0x100, 0x14F, 0x150, one page, declared-4096, declared-1, declared, declared+1, declared+16384); plus proptest headers with arbitrary bytes in all 80 header positions (title with invalid UTF-8, checksum valid / off by one / arbitrary) x generated lengths. Oracle: accepted <=> length >= 0x150 and checksum(0x134..=0x14C) == byte 0x14D and type in {0x00,0x01,0x02,0x03,0x11,0x12,0x13} and length >= declared ROM size; an accepted core has exactly the table's ROM and RAM sizes, maps banks as the controller model of its type says, reads its last declared ROM byte, survives a full 65536-address read sweep and a short run. Rejection = message/None or a Rust panic during load. Non-trivial = distinct (expected outcome and reason, length class, type, size codes).",
+    rule: "ROM files are built in memory (header bytes 0x100-0x14F + a length) and loaded through the real loader (main::load_rom via the verif_load_rom hook). Enumerated completely: all 256 checksum bytes, all 256 cartridge-type bytes, all 256 ROM-size bytes and all 256 RAM-size bytes (everything else valid), each x 11 file-length classes (0, 0xFF, 0x100, 0x14F, 0x150, one page, declared-4096, declared-1, declared, declared+1, declared+16384); plus proptest headers with arbitrary bytes in all 80 header positions (title with invalid UTF-8, checksum valid / off by one / arbitrary) x generated lengths. Oracle: accepted <=> length >= 0x150 and checksum(0x134..=0x14C) == byte 0x14D and type in {0x00,0x01,0x02,0x03,0x11,0x12,0x13} and length >= declared ROM size; an accepted core has exactly the table's ROM and RAM sizes, maps banks as the controller model of its type says, reads its last declared ROM byte, survives a full 65536-address read sweep and a short run. Rejection = message/None or a Rust panic during load. Non-trivial = distinct (expected outcome and reason, length class, type, size codes). History independence: with the descriptor limit lowered to 64 above what is open, the same valid file (four cartridge kinds) is loaded 300 times (5000 in the thorough tier) in one process, each core dropped again; it must be accepted every time and the number of open descriptors must be back where it was.",
     assumptions: &[
         "size codes outside the documented tables (ROM code not in 0-8/0x52-0x54, RAM code > 5): rejection or the loader's default are both accepted; crashes are not",
         "a file longer than its declared size may be accepted or rejected",
         "a Rust panic with a message during load counts as controlled termination; a signal (SIGBUS/SIGSEGV/abort) never does",
         "models::mbc for the controller behaviour of accepted files",
     ],
-    required_classes: &["accept", "reject-checksum", "reject-type", "reject-short-header", "reject-short-body", "len-declared-1", "len-declared", "exhaustive-checksum", "exhaustive-type", "exhaustive-rom-size", "exhaustive-ram-size", "generated-header"],
+    required_classes: &["accept", "reject-checksum", "reject-type", "reject-short-header", "reject-short-body", "len-declared-1", "len-declared", "exhaustive-checksum", "exhaustive-type", "exhaustive-rom-size", "exhaustive-ram-size", "generated-header", "repeated-loads"],
     exhaustive: true,
 };
 
@@ -395,9 +395,69 @@ fn run(rec: &mut Rec) {
         }
         exec_case(c, rec, counting)
     });
+    // history independence: many loads in one process, under a low descriptor limit
+    for (k, (t, rc)) in [(0x00u8, 0x00u8), (0x01, 0x01), (0x13, 0x02), (0x03, 0x05)].iter().enumerate() {
+        if rec.ctx.mine(3 + 4 * k) && !rec.too_many() {
+            repeated_loads(rec, *t, *rc, rec.ctx.tier.pick(300u32, 5000), 64);
+        }
+    }
+}
+
+/// Acceptance must not depend on how many files the process has loaded before: with the
+/// descriptor limit lowered to `limit`, the same valid file is loaded `loads` times (each
+/// core dropped again) and must be accepted every time, and the number of open descriptors
+/// must be back where it was.
+fn repeated_loads(rec: &mut Rec, t: u8, rc: u8, loads: u32, limit: u64) {
+    let case = json!({"kind": "repeated-loads", "type": t, "rom_code": rc, "loads": loads, "descriptor_limit": limit});
+    rec.current(&case.to_string());
+    rec.class("repeated-loads", 1);
+    rec.nontrivial(fnv(case.to_string().as_bytes()));
+    let c = finalize(&Case { header: base_header(t, rc, if t == 0 { 0 } else { 2 }), len: rom_banks_for_code(rc).unwrap() * 0x4000, fix_checksum: true });
+    let count_fds = || std::fs::read_dir("/proc/self/fd").map(|d| d.count()).unwrap_or(0);
+    let mut old = libc::rlimit { rlim_cur: 0, rlim_max: 0 };
+    unsafe { libc::getrlimit(libc::RLIMIT_NOFILE, &mut old) };
+    let before = count_fds();
+    let lowered = libc::rlimit { rlim_cur: (before as u64 + limit).min(old.rlim_max), rlim_max: old.rlim_max };
+    unsafe { libc::setrlimit(libc::RLIMIT_NOFILE, &lowered) };
+    let mut failed: Option<(u32, String)> = None;
+    for k in 0..loads {
+        rec.progress(k as u64);
+        let (o, f) = load(&c);
+        match o {
+            Outcome::Loaded(core) => drop(core),
+            Outcome::None_ => {
+                failed = Some((k, "rejected".to_string()));
+            }
+            Outcome::Panicked(m) => {
+                failed = Some((k, format!("panicked: {}", m)));
+            }
+        }
+        drop(f);
+        if failed.is_some() {
+            break;
+        }
+    }
+    unsafe { libc::setrlimit(libc::RLIMIT_NOFILE, &old) };
+    rec.eval(loads as u64);
+    let after = count_fds();
+    if let Some((k, how)) = failed {
+        rec.violation("accept-depends-on-history", case, format!("a valid file (type {:#04x}, ROM code {:#04x}) was accepted {} times and then {} (descriptor limit {} above the {} already open; {} descriptors open afterwards)", t, rc, k, how, limit, before, after));
+    } else if after > before + 2 {
+        rec.violation("accept-depends-on-history", case, format!("after {} accepted loads of a valid file (each core dropped again) {} descriptors are open, {} before: later loads will be refused once the limit is reached", loads, after, before));
+    }
 }
 
 fn replay(case: &Value, rec: &mut Rec) {
+    if case.get("kind").and_then(|k| k.as_str()) == Some("repeated-loads") {
+        let g = |k: &str| case.get(k).and_then(|v| v.as_u64()).unwrap_or(0);
+        let (t, rc) = (g("type") as u8, g("rom_code") as u8);
+        if rom_banks_for_code(rc).is_none() {
+            rec.inconclusive("replay case names an unsupported ROM size");
+            return;
+        }
+        repeated_loads(rec, t, rc, (g("loads") as u32).min(100_000), g("descriptor_limit").max(8));
+        return;
+    }
     if case.get("kind").and_then(|k| k.as_str()) == Some("fuzz-bytes") {
         let data = unhex(case.get("bytes").and_then(|b| b.as_str()).unwrap_or(""));
         rec.eval(1);
